@@ -29,18 +29,24 @@ on a scratch worktree). They are kept under `/verif/seeded/<id>/`
 (patch.diff, demo_test.go, the agent's README.md, meta.json). None is ever
 committed to /repo.
 
-Result: 99 changes (3 waves x 11 properties x 3; the second and third wave
+Result: 115 changes: 3 waves x 11 properties x 3 (the second and third wave
 were also given one-line descriptions of the earlier changes so as not to
 repeat them, and the third was asked for the hardest-to-notice realistic
-change). 97 are reported by a quick check; 2 are recorded as not pursued
+change), plus a fourth wave of 16 in which each of four agents got all eleven
+property texts and a set of files to stay within (the small files nobody had
+touched; parse.go/disasm.go; machine.go/reflect.go; CLI and API wrappers).
+113 are reported by a quick check; 2 are recorded as not pursued
 (C08-w3-m3 and C09-w3-m3 need sources / strings of 16 MiB and more - beyond
 every size class the properties name, at seconds and hundreds of MB per run).
-90 of the 97 are reported by the check of the property they were written
+106 of the 113 are reported by the check of the property they were written
 against; 7 break another property's statement more directly and are reported
 there (concurrent callers -> C12: C19-w2-m3, C06-w3-m2, C09-w3-m2, C19-w3-m2;
 a failing dump write -> C18: C09-w3-m1; these were written "against" a property
 whose workload has no such dimension).
-Misses when first tried: 3 in wave 1, 13 in wave 2, 18 in wave 3 (hard mode);
+Misses when first tried: 3 in wave 1, 13 in wave 2, 18 in wave 3 (hard mode),
+4 in wave 4 - and one wave-4 change (an endless diagnostic loop in the parser)
+made the check run for over an hour before the supervisor was given a bound
+on worker deaths (section 12);
 for 3 more (C19 wave 1) the workload was widened on reading the agent's
 description, before the first trial. Each miss was answered by widening the
 workload, adding a fault kind or an invariant - never by special-casing the
